@@ -243,8 +243,8 @@ class IPMW:
             model_numerator.append(model_numerator[-1])
 
         # Looping through all missing variables and specified models
-        probs_denom = pd.Series([1] * self.df.shape[0])
-        probs_num = pd.Series([1] * self.df.shape[0])
+        probs_denom = pd.Series([1] * self.df.shape[0], index=self.df.index)
+        probs_num = pd.Series([1] * self.df.shape[0], index=self.df.index)
 
         for mv, model_d, model_n in zip(self.missing, model_denominator, model_numerator):
             df = self.df.copy()
